@@ -41,7 +41,50 @@ def replay_b64(prop, r, fs, seed, work):
     return rc == 1, out
 
 
-DRIVERS = [('b64_', replay_b64), ('aes_', replay_aes), ('sha', replay_hash), ('md5', replay_hash), ('hashmaster_', replay_hash), ('filebuffer', replay_hash)]
+def replay_file(prop, r, fs, seed, work):
+    """file-level obligation groups (cry_*, pipe_*, hmac_*, fheader_*, bg_*): the verifier's trace is over ghost files and cannot be turned
+    into a real file mechanically, so the real program is run on a battery instead: round trips over the lengths around the block and
+    chunk boundaries, thread counts, modes, and one tampered byte per header / IV / body / tag region; seed-dependent extra lengths"""
+    import random
+    rnd = random.Random(seed)
+    src = ['kernel/cry.cpp', 'kernel/fheader.cpp', 'kernel/hash/sha1.cpp', 'kernel/hash/md5.cpp', 'kernel/hash/sha256.cpp', 'kernel/hash/hashmaster.cpp',
+           'kernel/hash/hashbuffer.cpp', 'kernel/multi_aes/multi_buffergroup.cpp', 'kernel/multi_aes/multicry.cpp', 'kernel/multi_aes/aes/aes.cpp',
+           'kernel/multi_aes/aes/aesmode.cpp']
+    exe = os.path.join(work, 'replay_pipeline_replay')
+    cmd = ['g++', '-std=c++17', '-O1', '-w', '-pthread'] + ['-I' + os.path.join(REPO, d) for d in INC] + [os.path.join(VERIF, 'replay', 'pipeline_replay.cpp')] + \
+          [os.path.join(REPO, x) for x in src] + ['-o', exe]
+    c = subprocess.run(cmd, stdout=subprocess.PIPE, stderr=subprocess.STDOUT)
+    if c.returncode != 0:
+        return False, 'replay driver does not compile against the current tree: ' + c.stdout.decode()[-400:]
+    CH = 16 << 20
+    runs = []
+    for n in [0, 1, 15, 16, 17, 31, 32, 33, 63, 64, 4095, rnd.randrange(1, 5000), rnd.randrange(1, 100000)]:
+        for T in (1, 2, 3, 16):
+            runs.append(['roundtrip', n, T, rnd.randrange(5), rnd.randrange(3)])
+    for n in (CH - 1, CH, CH + 1, 2 * CH):
+        runs.append(['roundtrip', n, rnd.choice((1, 2, 3)), rnd.randrange(5), rnd.randrange(3)])
+    for T in (1, 2):
+        body = 48 + 20 * T
+        for off in (0, 8, 9, 10, 25, 40, 48, body - 1, body, body + 5, body + 31):
+            runs.append(['roundtrip', 40, T, 1 + rnd.randrange(4), rnd.randrange(3), off, rnd.randrange(1, 256)])
+    runs.append(['streams', 2, 2])
+    log = []
+    for a in runs:
+        try:
+            q = subprocess.run([exe] + [str(x) for x in a], stdout=subprocess.PIPE, stderr=subprocess.STDOUT, timeout=240)
+            rc, out = q.returncode, q.stdout.decode(errors='replace')
+        except subprocess.TimeoutExpired:
+            rc, out = 124, 'timed out after 240 s (the real code does not return)'
+        if a[0] == 'streams' or (len(a) >= 7 and a[5] == 8):
+            continue     # the two recorded findings (known_findings.json D10, D7) are not counted as a reproduction of something else
+        if rc != 0:
+            line = [x for x in out.split('\n') if x.startswith('RESULT')]
+            log.append('FAILING INPUT: pipeline_replay %s -> exit %d %s' % (' '.join(str(x) for x in a), rc, line[-1] if line else out[-300:]))
+            return True, '\n'.join(log)
+    return False, 'battery of %d runs of the real program (round trips, tampered bytes) passed: no failing input found' % len(runs)
+
+
+DRIVERS = [('cry_', replay_file), ('pipe_', replay_file), ('hmac_', replay_file), ('fheader_', replay_file), ('bg_', replay_file), ('b64_', replay_b64), ('aes_', replay_aes), ('sha', replay_hash), ('md5', replay_hash), ('hashmaster_', replay_hash), ('filebuffer', replay_hash)]
 
 
 def make(prop, r, fs, meta, seed, work):
